@@ -3,10 +3,12 @@
 -/
 import Stgutg.Model.UeIdentity
 import Stgutg.Spec.Ts24501Identity
+import Stgutg.Proofs.Suci
 open Stgutg
 
 namespace Stgutg.Proofs.UeIdentity
 open Model.UeIdentity
+open Stgutg.Proofs.Suci (asc ValidImsi)
 
 /-- induction from the right end of a list -/
 theorem rev_ind {α : Type} {P : List α → Prop} (nil : P []) (snoc : ∀ l a, P l → P (l ++ [a])) : ∀ l, P l := by
@@ -166,6 +168,112 @@ theorem createUE_supi {imsi : Bytes} (h : DecimalImsi imsi) (i : Nat) (hfit : de
   simp only [createUE_sum h i hi, setAuthSubscription, newRanUeContext]
   unfold fmtPad0
   rw [if_pos (by omega), if_pos ⟨h.nonempty, by rw [Int.toNat_natCast]; exact hfit⟩, Int.toNat_natCast]
+
+/-! ### populations -/
+
+/-- the population of `n` UEs fits: the number of the last UE still has the configured number of digits -/
+def Fits (imsi : Bytes) (n : Nat) : Prop := decVal imsi + n ≤ 10 ^ imsi.length
+
+/-- the MSIN digits (what follows the first `p` = 3 + |MNC| digits) can accommodate the population -/
+def MsinFits (imsi : Bytes) (p n : Nat) : Prop :=
+  p ≤ imsi.length ∧ decVal (imsi.drop p) + n ≤ 10 ^ (imsi.length - p)
+
+/-- room in the MSIN is room in the whole number -/
+theorem msinFits_fits {imsi : Bytes} {p n : Nat} (h : DecimalImsi imsi) (hf : MsinFits imsi p n) : Fits imsi n := by
+  obtain ⟨hp, hf⟩ := hf
+  have hsplit : imsi = imsi.take p ++ imsi.drop p := (List.take_append_drop p imsi).symm
+  have hpre := decVal_lt (imsi.take p) (fun c hc => h.digits c (List.mem_of_mem_take hc))
+  have hlen : (imsi.drop p).length = imsi.length - p := List.length_drop
+  have hlt : (imsi.take p).length = p := by rw [List.length_take]; omega
+  unfold Fits
+  rw [hsplit, decVal_append, List.length_append, hlt, hlen, Nat.pow_add]
+  rw [hlt] at hpre
+  have : (decVal (imsi.take p) + 1) * 10 ^ (imsi.length - p) ≤ 10 ^ p * 10 ^ (imsi.length - p) :=
+    Nat.mul_le_mul_right _ hpre
+  rw [Nat.add_mul] at this
+  omega
+
+/-! ### the SUCI of a created UE (link to C11) -/
+
+/-- the digit values of a decimal string -/
+def digitsOf (bs : Bytes) : List Nat := bs.map fun c => c.toNat - 48
+
+theorem asc_digitsOf (bs : Bytes) (h : ∀ c ∈ bs, isDigitByte c = true) : asc (digitsOf bs) = bs := by
+  induction bs with
+  | nil => rfl
+  | cons c cs ih =>
+    simp only [digitsOf, asc, List.map_cons, List.map_map] at ih ⊢
+    rw [digit_byte_eq c (h c (by simp))]
+    congr 1
+    exact ih (fun d hd => h d (by simp [hd]))
+
+theorem digitsOf_lt (bs : Bytes) (h : ∀ c ∈ bs, isDigitByte c = true) : ∀ d ∈ digitsOf bs, d < 10 := by
+  intro d hd
+  obtain ⟨c, hc, rfl⟩ := List.mem_map.mp hd
+  have := digit_byte c (h c hc)
+  omega
+
+theorem digitsOf_length (bs : Bytes) : (digitsOf bs).length = bs.length := List.length_map ..
+
+/-- the SUPI of UE `i`, split as MCC ‖ MNC ‖ MSIN + i -/
+theorem createUE_supi_split {imsi : Bytes} (h : DecimalImsi imsi) {m n : Nat} (hfit : MsinFits imsi (3 + m) n)
+    {i : Nat} (hi : i < n) (k opc op : Bytes) :
+    (createUE imsi (i : Int) k opc op).supi =
+      imsiPrefix ++ (imsi.take 3 ++ (imsi.drop 3).take m ++ decW (imsi.length - (3 + m)) (decVal (imsi.drop (3 + m)) + i)) := by
+  have hF := msinFits_fits h hfit
+  obtain ⟨hp, hf⟩ := hfit
+  unfold Fits at hF
+  rw [createUE_supi h i (by omega)]
+  have hsplit : imsi = imsi.take (3 + m) ++ imsi.drop (3 + m) := (List.take_append_drop _ imsi).symm
+  have hlt : (imsi.take (3 + m)).length = 3 + m := by rw [List.length_take]; omega
+  have hld : (imsi.drop (3 + m)).length = imsi.length - (3 + m) := List.length_drop
+  have hval : decVal imsi + i = decVal (imsi.take (3 + m)) * 10 ^ (imsi.length - (3 + m)) + (decVal (imsi.drop (3 + m)) + i) := by
+    conv => lhs; rw [hsplit, decVal_append, hld]
+    omega
+  have hw : imsi.length = (3 + m) + (imsi.length - (3 + m)) := by omega
+  have hdig : decW imsi.length (decVal imsi + i)
+      = imsi.take (3 + m) ++ decW (imsi.length - (3 + m)) (decVal (imsi.drop (3 + m)) + i) := by
+    conv => lhs; rw [hw, hval]
+    rw [decW_split (3 + m) _ _ _ (by omega)]
+    have := decW_decVal (imsi.take (3 + m)) (fun c hc => h.digits c (List.mem_of_mem_take hc))
+    rw [hlt] at this
+    rw [this]
+  rw [hdig, List.take_add]
+
+
+/-- what `RegisterUE` / `DeregisterUE` send for UE `i`: `EncodeSuci(TrimPrefix(ue.Supi, "imsi-"), len(mnc))` is read
+    by the TS 24.501 decoder as the configured MCC and MNC with MSIN = configured MSIN + i -/
+theorem suci_of_created_ue {imsi : Bytes} (h : DecimalImsi imsi) {m n : Nat} (hm : m = 2 ∨ m = 3)
+    (hlen : 3 + m < imsi.length) (hfit : MsinFits imsi (3 + m) n) {i : Nat} (hi : i < n) (k opc op : Bytes) :
+    ∃ buf, Model.Suci.encodeSuci (Model.Suci.trimImsiPrefix (createUE imsi (i : Int) k opc op).supi) (m : Int) = .ok buf ∧
+      Spec.Identity.decodeSuci buf = some (Spec.Identity.nullSchemeSuci (digitsOf (imsi.take 3))
+        (digitsOf ((imsi.drop 3).take m)) (digitsOf (decW (imsi.length - (3 + m)) (decVal (imsi.drop (3 + m)) + i)))) := by
+  rw [createUE_supi_split h hfit hi]
+  have htrim : ∀ x : Bytes, Model.Suci.trimImsiPrefix (imsiPrefix ++ x) = x := fun _ => rfl
+  rw [htrim]
+  have d1 : ∀ c ∈ imsi.take 3, isDigitByte c = true := fun c hc => h.digits c (List.mem_of_mem_take hc)
+  have d2 : ∀ c ∈ (imsi.drop 3).take m, isDigitByte c = true :=
+    fun c hc => h.digits c (List.mem_of_mem_drop (List.mem_of_mem_take hc))
+  have d3 := decW_digits (imsi.length - (3 + m)) (decVal (imsi.drop (3 + m)) + i)
+  have hv : ValidImsi (digitsOf (imsi.take 3)) (digitsOf ((imsi.drop 3).take m))
+      (digitsOf (decW (imsi.length - (3 + m)) (decVal (imsi.drop (3 + m)) + i))) := by
+    refine ⟨?_, ?_, ?_, ?_⟩
+    · rw [digitsOf_length, List.length_take]; omega
+    · rw [digitsOf_length, List.length_take, List.length_drop]; omega
+    · rw [digitsOf_length, decW_length]; omega
+    · intro d hd
+      simp only [List.mem_append] at hd
+      rcases hd with (hd | hd) | hd
+      · exact digitsOf_lt _ d1 d hd
+      · exact digitsOf_lt _ d2 d hd
+      · exact digitsOf_lt _ d3 d hd
+  obtain ⟨buf, hb, hdec⟩ := Stgutg.Proofs.Suci.suci_decodes hv
+  refine ⟨buf, ?_, hdec⟩
+  have hmlen : (digitsOf ((imsi.drop 3).take m)).length = m := by
+    rw [digitsOf_length, List.length_take, List.length_drop]; omega
+  rw [hmlen, Stgutg.Proofs.Suci.asc_append, Stgutg.Proofs.Suci.asc_append, asc_digitsOf _ d1, asc_digitsOf _ d2,
+    asc_digitsOf _ d3] at hb
+  exact hb
 
 /-! ### capability octets -/
 
